@@ -1398,21 +1398,32 @@ class Enumerated(Type):
     def format_root_indexes(self):
         return format_or(sorted(list(self.root_index_to_data)))
 
+    def format_names(self):
+        names = list(self.root_data_to_index)
+
+        if self.additions_data_to_index is not None:
+            names += list(self.additions_data_to_index)
+
+        return format_or(sorted(names))
+
     def encode(self, data, encoder):
-        if self.additions_index_to_data is None:
+        if data in self.root_data_to_index:
+            if self.additions_index_to_data is not None:
+                encoder.append_bit(0)
+
             index = self.root_data_to_index[data]
             encoder.append_non_negative_binary_integer(index,
                                                        self.root_number_of_bits)
+        elif (self.additions_index_to_data is not None
+              and data in self.additions_data_to_index):
+            encoder.append_bit(1)
+            index = self.additions_data_to_index[data]
+            encoder.append_normally_small_non_negative_whole_number(index)
         else:
-            if data in self.root_data_to_index:
-                encoder.append_bit(0)
-                index = self.root_data_to_index[data]
-                encoder.append_non_negative_binary_integer(index,
-                                                           self.root_number_of_bits)
-            else:
-                encoder.append_bit(1)
-                index = self.additions_data_to_index[data]
-                encoder.append_normally_small_non_negative_whole_number(index)
+            raise EncodeError(
+                "Expected enumeration value {}, but got '{}'.".format(
+                    self.format_names(),
+                    data))
 
     def decode(self, decoder):
         if self.additions_index_to_data is None:
